@@ -330,8 +330,28 @@ func (p *parser) parseObjectProperty() ast.Property {
 func (p *parser) parseObjectLiteral() ast.Expression {
 	var value []ast.Property
 	idx0 := p.expect(token.LEFT_BRACE)
+	// ES5 11.1.5: a name may not be defined as data property and accessor, nor by two getters or
+	// two setters (early SyntaxError). Data properties may repeat outside strict mode.
+	const isData, isGetter, isSetter = 1, 2, 4
+	defined := map[string]int{}
 	for p.token != token.RIGHT_BRACE && p.token != token.EOF {
-		value = append(value, p.parseObjectProperty())
+		keyIdx := p.idx
+		property := p.parseObjectProperty()
+		kind := isData
+		switch property.Kind {
+		case "get":
+			kind = isGetter
+		case "set":
+			kind = isSetter
+		}
+		switch seen := defined[property.Key]; {
+		case kind == isData && seen&(isGetter|isSetter) != 0, kind != isData && seen&isData != 0:
+			p.error(keyIdx, "Object literal may not have data and accessor property with the same name")
+		case kind != isData && seen&kind != 0:
+			p.error(keyIdx, "Object literal may not have multiple get/set accessors with the same name")
+		}
+		defined[property.Key] |= kind
+		value = append(value, property)
 		if p.token == token.COMMA {
 			if p.mode&StoreComments != 0 {
 				p.comments.Unset()
